@@ -141,7 +141,7 @@ pub fn run_program(
             simplicity_elements_decodeJet,
             &mut census,
             &mut prog_stream,
-        ))? as usize;
+        ) as i32)? as usize;
         assert!(!dag.is_null());
         let _d1 = FreeOnDrop(dag as *mut u8);
         SimplicityErr::from_i32(simplicity_closeBitstream(&mut prog_stream))?;
